@@ -1,5 +1,6 @@
 """C12 - every serialisation protocol version ever registered still loads what it saved."""
 import ast
+import json
 
 from ..index import AnalysisError, dotted_chain, norm, unparse, walk_no_nested, body_stmts
 from ..serial import Registry
@@ -625,8 +626,86 @@ def rule_h(ctx, ix, reg):
                               'is not what the rest of the package expects there (for _key_joins: a bare identifier where the join code '
                               'takes the length of a tuple of identifiers - the restored join raises on first use)'
                               % (ld.name, v, t.rpartition('.')[2], fld, sh, newest, ref, v), where=where(ld, st))
+            # a version whose own saver stored a whole sequence under one reference (context.id(v) of something the newest saver
+            # iterates) gets that sequence back from context.object: its loader must not wrap it unconditionally
+            svs = reg.savers.get(t, {})
+            with_rows = [v_ for v_ in sorted(svs) if _record_rows(svs[v_], fld)[0] is not None]
+            for v in sorted(byv):
+                if v not in with_rows or v == with_rows[-1]:
+                    continue
+                whole = _whole_sequence_positions(svs[v], svs[with_rows[-1]], fld)
+                if not whole:
+                    continue
+                st, ld = byv[v]
+                comps = [c for c in ast.walk(st.value) if isinstance(c, (ast.GeneratorExp, ast.ListComp, ast.DictComp, ast.SetComp))
+                         and fld in unparse(c.generators[0].iter)]
+                if not comps:
+                    raise AnalysisError('C12.h: %s no longer reads %s in a comprehension over the record' % (ld.name, fld))
+                tg = _flat_names(comps[0].generators[0].target)
+                for i in sorted(whole):
+                    if i >= len(tg):
+                        continue
+                    name = tg[i]
+                    for c in [c for c in ast.walk(comps[0]) if isinstance(c, ast.Call) and any(isinstance(a, ast.Name) and a.id == name for a in c.args)]:
+                        if call_name(c) == 'object':
+                            continue
+                        sh = _loaded_shape(c, ld)
+                        n += 1
+                        ctx.ob(R, '%s v%d .%s[%d]' % (t.rpartition('.')[2], v, fld, i),
+                               'what the version-%d saver stored as a whole sequence is not wrapped again by the version-%d loader' % (v, v),
+                               sh == 'O' or '*' in json.dumps(sh),
+                               detail='%s restores entry %d of %s as %s, a fixed-length wrapper around context.object(...): the version-%d '
+                                      'saver stores the whole tuple of identifiers under one reference, so the loader gets the tuple back and '
+                                      'wraps it a second time - the restored join holds a tuple inside a tuple'
+                                      % (ld.name, i, fld, sh, v), where=where(ld, c))
     if n < 2:
         raise AnalysisError('C12.h: only %d fields set by several loader versions found' % n)
+
+
+def _flat_names(t):
+    if isinstance(t, ast.Name):
+        return [t.id]
+    out = []
+    for e in getattr(t, 'elts', []):
+        out += _flat_names(e)
+    return out
+
+
+def _record_rows(saver, fld):
+    """(element expressions of one saved row, loop variables by position) for `result[fld] = [[e0, e1, ..] for <targets> in ...]`."""
+    for st in ast.walk(saver.node):
+        if isinstance(st, ast.Assign) and isinstance(st.targets[0], ast.Subscript) and isinstance(st.targets[0].slice, ast.Constant) \
+                and st.targets[0].slice.value == fld:
+            for c in ast.walk(st.value):
+                if isinstance(c, (ast.ListComp, ast.GeneratorExp)) and isinstance(c.elt, (ast.List, ast.Tuple)):
+                    return list(c.elt.elts), _flat_names(c.generators[0].target)
+    return None, None
+
+
+def _whole_sequence_positions(saver, newest, fld):
+    rows, names = _record_rows(saver, fld)
+    nrows, nnames = _record_rows(newest, fld)
+    if rows is None or nrows is None or len(rows) != len(nrows):
+        return set()
+    out = set()
+    for i, (e, ne) in enumerate(zip(rows, nrows)):
+        if not (isinstance(e, ast.Call) and call_name(e) == 'id' and len(e.args) == 1 and isinstance(e.args[0], ast.Name) and e.args[0].id in names):
+            continue
+        # the newest saver iterates the value at this position: a comprehension over it, or a local helper that has one over its parameter
+        iterates = False
+        for c in ast.walk(ne):
+            if isinstance(c, (ast.GeneratorExp, ast.ListComp)) and isinstance(c.generators[0].iter, ast.Name) and c.generators[0].iter.id in nnames:
+                iterates = True
+        if isinstance(ne, ast.Call) and isinstance(ne.func, ast.Name) and len(ne.args) == 1 and isinstance(ne.args[0], ast.Name) and ne.args[0].id in nnames:
+            for d in ast.walk(newest.node):
+                if isinstance(d, ast.FunctionDef) and d.name == ne.func.id and d.args.args:
+                    p0 = d.args.args[0].arg
+                    iterates = iterates or any(isinstance(c, (ast.GeneratorExp, ast.ListComp, ast.For)) and isinstance(
+                        (c.generators[0].iter if not isinstance(c, ast.For) else c.iter), ast.Name) and
+                        (c.generators[0].iter if not isinstance(c, ast.For) else c.iter).id == p0 for c in ast.walk(d))
+        if iterates:
+            out.add(i)
+    return out
 
 
 def rule_i(ctx, ix):
